@@ -2,6 +2,9 @@
   C27 — peer-controlled retained state stays bounded.
 -/
 import H2.Proofs.RecvEmits
+import H2.Proofs.ClosedCap
+import H2.Proofs.HbCap
+import H2.Proofs.History
 
 namespace H2.C27
 open H2 H2.Gen H2.Conn
@@ -180,5 +183,50 @@ theorem C27_oversized (c : Conn) (rest : List DecRes) (block : Bytes) (h : c.hp.
   unfold decodeHeaders
   simp only [bind, M.bind, zoom, Hp.decode, h]
   exact ⟨_, rfl⟩
+
+/-! ### along every history -/
+
+/-- the two capped stores: the memory of closed streams and the backlog of a header block under assembly -/
+def Bounded (c : Conn) : Prop := CC c ∧ HC c
+
+theorem b_of_keeps {α : Type} {m : CM α} {c : Conn} (h1 : PC m c) (h2 : PF m c) (h : Bounded c) :
+    wp m (fun _ c' => Bounded c') (fun _ c' => Bounded c') c :=
+  wp_and (h1 h.1) (hc_of_pf h2 h.2)
+
+/-- every public call keeps both stores within their caps, whether it returns or raises -/
+theorem C27_calls_keep_bounds : CallsKeep Bounded where
+  initiate := fun c h => b_of_keeps (pc_apiInitiate c) (pf_apiInitiate c) h
+  upgrade := fun hdr c h => b_of_keeps (pc_apiUpgrade hdr c) (pf_apiUpgrade hdr c) h
+  sendHeaders := fun sid hs es pw pd pe c h => b_of_keeps (pc_apiSendHeaders sid hs es pw pd pe c) (pf_apiSendHeaders sid hs es pw pd pe c) h
+  pushStream := fun sid p hs c h => b_of_keeps (pc_apiPushStream sid p hs c) (pf_apiPushStream sid p hs c) h
+  sendData := fun sid d es pad c h => b_of_keeps (pc_apiSendData sid d es pad c) (pf_apiSendData sid d es pad c) h
+  endStream := fun sid c h => b_of_keeps (pc_apiEndStream sid c) (pf_apiEndStream sid c) h
+  incrementWindow := fun i sid c h => b_of_keeps (pc_apiIncrementWindow i sid c) (pf_apiIncrementWindow i sid c) h
+  ping := fun d c h => b_of_keeps (pc_apiPing d c) (pf_apiPing d c) h
+  resetStream := fun sid code c h => b_of_keeps (pc_apiResetStream sid code c) (pf_apiResetStream sid code c) h
+  closeConnection := fun code extra last c h => b_of_keeps (pc_apiCloseConnection code extra last c) (pf_apiCloseConnection code extra last c) h
+  updateSettings := fun items c h => b_of_keeps (pc_apiUpdateSettings items c) (pf_apiUpdateSettings items c) h
+  altsvc := fun f o sid c h => b_of_keeps (pc_apiAltsvc f o sid c) (pf_apiAltsvc f o sid c) h
+  prioritize := fun sid w d e c h => b_of_keeps (pc_apiPrioritize sid w d e c) (pf_apiPrioritize sid w d e c) h
+  ackData := fun size sid c h => b_of_keeps (pc_apiAckData size sid c) (pf_apiAckData size sid c) h
+  dataToSend := fun n c h => b_of_keeps (pc_apiDataToSend n c) (pf_apiDataToSend n c) h
+  clearOut := fun c h => b_of_keeps (pc_apiClearOut c) (pf_apiClearOut c) h
+  localWindow := fun sid c h => b_of_keeps (pc_apiLocalWindow sid c) (pf_apiLocalWindow sid c) h
+  remoteWindow := fun sid c h => b_of_keeps (pc_apiRemoteWindow sid c) (pf_apiRemoteWindow sid c) h
+  nextStreamId := fun c h => b_of_keeps (pc_apiNextStreamId c) (pf_apiNextStreamId c) h
+  openOut := fun c h => b_of_keeps (pc_apiOpenOut c) (pf_apiOpenOut c) h
+  openIn := fun c h => b_of_keeps (pc_apiOpenIn c) (pf_apiOpenIn c) h
+
+/-- `receive_data` keeps them for every byte string, also when it raises -/
+theorem C27_recv_keeps_bounds (d : Bytes) (c : Conn) (h : Bounded c) : Bounded (receiveData d c).2 :=
+  ⟨receiveData_cc d c h.1, receiveData_hc d c h.2⟩
+
+/-- **bounded in every reachable state**: whatever calls and whatever bytes came before — connection errors included —
+    the memory of closed streams holds at most MAX_CLOSED_STREAMS entries and the backlog of a header block under
+    assembly at most CONTINUATION_BACKLOG frames -/
+theorem C27_bounded_every_history (cfg : Config) (c : Conn) (h : C29.Reachable cfg c) :
+    c.closedStreams.length ≤ MAX_CLOSED_STREAMS.toNat ∧ (c.fb.headersBuffer.length : Int) ≤ CONTINUATION_BACKLOG := by
+  refine every_history C27_calls_keep_bounds C27_recv_keeps_bounds (fun _ _ h => h) cfg ?_ c h
+  cases hc : cfg.client <;> simp [Bounded, CC, HC, HbCap, Conn.init, hc, FrameBuffer.init, CONTINUATION_BACKLOG]
 
 end H2.C27
